@@ -90,6 +90,17 @@ CLAIMED['C18'] = (
     'exp/erf uninterpreted with lemma schemas; the Gaussian integral = 1 is a stated lemma; bins concrete per job; the '
     'double-mode unsat proofs are reported as inconclusive-FP when the solver does not finish (never as success).',
     'DESIGN.md §4 C18', TECH + '; z3 Float64 for the bin edges')
+CLAIMED['C16'] = (
+    'Spectrometer, CzernyTurnerSpectrometer, Polychromator / TrapezoidalFilter are executed from source on object arrays: '
+    'for symbolic monotone pixel-edge arrays (layouts up to 1+2 pixels quick / 3 spectra thorough), filters and bin '
+    'factors z3 proves the spectral range covers every pixel / filter, (max-min)/bins <= narrowest pixel / '
+    'min_bins_per_pixel, pixel centres, that calibrate() returns value*width == Spectrum.integrate over each pixel and '
+    'raises iff the spectrum is narrower; and - one-step induction, freshly constructed instrument as invariant, caches '
+    'filled - that after any single setter every observable (range, bins, pixel arrays, pipeline classes / kwargs / created '
+    'pipelines) equals that of an instrument built directly with the final parameters.',
+    'Spectrum.integrate is an uninterpreted function; InterpolatedSF a recording stub; pixel counts concrete per job; '
+    'sequences of setters are covered by induction over single setters from a fresh-equivalent state.',
+    'DESIGN.md §4 C16', TECH)
 NOT_YET = {}
 props = [json.loads(l) for l in open(os.path.join(HERE, 'properties.jsonl'))]
 checks, na = [], []
